@@ -50,6 +50,9 @@ fn alphabet(tier: Tier) -> Vec<&'static str> {
         "X EXPIRE ka 100", "X TTL ka", "ADV 100000",
         "X EVAL redis.call('SET',KEYS[1],'p');redis.call('SET',KEYS[2],'q');return\\x201 2 ka kc",
         "X EVAL return\\x20redis.call('GET',KEYS[1]) 1 kc",
+        // the same script by digest, on both keys (the script cache must not depend on which shard saw the EVAL)
+        "X EVALSHA 620cd258c2c9c88c9d10db67812ccf663d96bdc6 1 kc", "X EVALSHA 620cd258c2c9c88c9d10db67812ccf663d96bdc6 1 ka",
+        "X SCRIPT EXISTS 620cd258c2c9c88c9d10db67812ccf663d96bdc6", "X SCRIPT LOAD return\\x20redis.call('GET',KEYS[1])", "X SCRIPT FLUSH",
         "FG ka", "FS ka f", "PG ka", "PS ka p", "BG ka kc", "BS ka 1 kc 2", "FG kc", "FS kc g",
     ];
     if tier == Tier::Thorough {
@@ -299,8 +302,10 @@ fn run_inner(n: usize, keys: &[String], hist: &[&str], op: &str, refresh: bool) 
                     )),
                 };
             }
+            // the script cache is server state too (EVAL registers a script that EVALSHA / SCRIPT EXISTS then see)
+            let script_known = resp::show(&one.exec(&resp::line("SCRIPT EXISTS 620cd258c2c9c88c9d10db67812ccf663d96bdc6")).await);
             Outcome {
-                fp: Some(format!("t={} {}", c1.get(), dump::show_keyspace(&k1))),
+                fp: Some(format!("t={} {} scripts={}", c1.get(), dump::show_keyspace(&k1), script_known)),
                 violation: None,
             }
         })
@@ -345,7 +350,7 @@ fn main() {
         let mut bfs = Bfs::new(alpha.len(), depth);
         bfs.deadline = Some(Instant::now() + budget);
         bfs.probe_duplicates = args.tier == Tier::Quick;
-        let stats = bfs.run(&format!("t={T0} <empty>"), |hist, o| {
+        let stats = bfs.run(&format!("t={T0} <empty> scripts=[:0]"), |hist, o| {
             let h: Vec<&str> = hist.iter().map(|i| alpha[*i as usize]).collect();
             let op = alpha[o as usize];
             let out = run(n, &keys, &h, op);
